@@ -481,17 +481,28 @@ def check_unmask(ctx, prog, fs):
 def check_handshake(ctx, prog):
     f = fn1(prog, 'asl::WebSocketServer::process')
     ctx.analysed(f)
-    lits = [bytes(e['b']).decode('latin-1') for e in fn_exprs(f) if e.get('k') == 'str']
-    sha = [e for e in fn_exprs(f) if e.get('k') == 'call' and e.get('pq') == 'asl::SHA1::hash']
+    # process() and the file-local helpers it calls (the accept key may be computed in one)
+    scope = [f]
+    for e in fn_exprs(f):
+        if e.get('k') == 'call' and e.get('fn') and not e.get('clsp'):
+            for h in prog.fn(e['fn'], e.get('sig')):
+                if h.get('body') and h not in scope and h.get('file') == f.get('file'):
+                    scope.append(h)
+    def all_exprs():
+        for h in scope:
+            for e in fn_exprs(h):
+                yield e
+    lits = [bytes(e['b']).decode('latin-1') for e in all_exprs() if e.get('k') == 'str']
+    sha = [e for e in all_exprs() if e.get('k') == 'call' and e.get('pq') == 'asl::SHA1::hash']
     guid_in_hash = any(w.get('k') == 'str' and bytes(w['b']).decode('latin-1') == GUID for e in sha for w in walk_expr(e))
     ctx.check(guid_in_hash, 'C11.handshake', f['pq'], 'process:accept key hashes key + RFC 6455 GUID', fwhere(f), 'SHA1(key + GUID)',
               'the accept key is not SHA-1 of the client key followed by the RFC 6455 GUID %s' % GUID)
-    b64 = [e for e in fn_exprs(f) if e.get('k') == 'call' and (e.get('pq') or '').endswith('encodeBase64')]
+    b64 = [e for e in all_exprs() if e.get('k') == 'call' and (e.get('pq') or '').endswith('encodeBase64')]
     okk = bool(b64) and any(w.get('k') == 'call' and (w.get('pq') or '').endswith('::length') for w in walk_expr(b64[0]['a'][1])) if b64 and len(b64[0].get('a', [])) > 1 else bool(b64)
     ctx.check(okk, 'C11.handshake', f['pq'], 'process:digest Base64 over its full length', fwhere(f), 'encodeBase64(hash, hash.length())', 'the digest is not Base64-encoded over all of its bytes')
     ctx.check(any('Sec-WebSocket-Accept: %s' in l for l in lits) and any('101' in l for l in lits), 'C11.handshake', f['pq'], 'process:101 response carries the accept key', fwhere(f), '101 + Sec-WebSocket-Accept',
               'the 101 response does not carry Sec-WebSocket-Accept')
-    key = [e for e in fn_exprs(f) if e.get('k') == 'str' and bytes(e['b']).decode('latin-1').lower() == 'sec-websocket-key']
+    key = [e for e in all_exprs() if e.get('k') == 'str' and bytes(e['b']).decode('latin-1').lower() == 'sec-websocket-key']
     ctx.check(bool(key), 'C11.handshake', f['pq'], 'process:reads Sec-WebSocket-Key', fwhere(f), 'key header', 'the client key header is not read')
 
 
